@@ -72,9 +72,10 @@ def recursive_fns(crate, without=None):
 
 
 class Inliner:
-    def __init__(self, crate, stop=lambda path: False, max_blocks=6000, max_depth=8, head=None):
+    def __init__(self, crate, stop=lambda path: False, max_blocks=6000, max_depth=8, head=None, closures=True):
         self.crate = crate
         self.head = head
+        self.closures = closures   # also inline direct calls of closure literals (`let f = |x| ..; f(a)`)
         self.stop = (lambda p: p == head or stop(p)) if head else stop
         # with a head, calls to the head stay calls; every cycle through the head is thereby cut, so the other members of its
         # recursion can be inlined (cycles that avoid the head stay non-inlinable)
@@ -82,6 +83,32 @@ class Inliner:
         self.max_blocks = max_blocks
         self.max_depth = max_depth
         self.inlined = []  # (callee path, call site span) in the order of inlining
+
+    def _closure_callee(self, out, t):
+        """`Fn::call(&closure, (args,))` on a closure literal of this body: (closure path, its fact, [argument operands])"""
+        f = t.get("func") or {}
+        decl = f.get("fn_path") or ""
+        if not decl.endswith(("ops::Fn::call", "ops::FnMut::call_mut", "ops::FnOnce::call_once")) or len(t.get("args", [])) != 2:
+            return None
+        B = M.Body(out)
+        os_ = M.trace(B, t["args"][0], M.IDENTITY_CALLS)
+        if len(os_) != 1 or os_[0].kind != "aggregate" or not os_[0].rv.get("closure") or os_[0].proj:
+            return None
+        cpath = os_[0].rv["closure"]
+        cb = self.crate.body(cpath)
+        if cb is None or not cb.get("mir") or cb["mir"].get("coroutine") or cpath in self.rec:
+            return None
+        # the arguments arrive as one tuple
+        tup = t["args"][1]
+        n = cb["mir"]["arg_count"] - 1
+        if tup.get("k") not in ("copy", "move"):
+            return None if n else (cpath, cb, [])
+        args = []
+        for k in range(n):
+            pl = copy.deepcopy(tup["p"])
+            pl["proj"] = list(pl.get("proj") or []) + [{"f": str(k), "i": k, "v": None}]
+            args.append({"k": tup["k"], "p": pl})
+        return cpath, cb, args
 
     def _callee_fact(self, t):
         f = t.get("func") or {}
@@ -113,8 +140,13 @@ class Inliner:
             if t.get("k") != "call" or depth >= self.max_depth or len(m["blocks"]) > self.max_blocks:
                 continue
             p, cb = self._callee_fact(t)
+            call_args = t.get("args", [])
             if cb is None:
-                continue
+                cc = self._closure_callee(out, t) if self.closures else None
+                if cc is None:
+                    continue
+                p, cb, rest = cc
+                call_args = [t["args"][0]] + rest
             cm = copy.deepcopy(cb["mir"])
             loff = len(m["locals"])
             boff = len(m["blocks"])
@@ -145,7 +177,7 @@ class Inliner:
                     nb["term"] = {"k": "unreachable", "sp": ct.get("sp")}
                 m["blocks"].append(nb)
                 work.append((nb["i"], depth + 1))
-            for k, a in enumerate(t.get("args", [])):
+            for k, a in enumerate(call_args):
                 blk["stmts"].append({"k": "assign", "p": {"l": loff + 1 + k, "proj": None}, "rv": {"k": "use", "op": a}, "sp": t.get("sp"), "inl": "arg"})
             blk["term"] = {"k": "goto", "target": boff, "sp": t.get("sp"), "inlined_call": p}
             self.inlined.append((p, t.get("sp")))
